@@ -78,6 +78,7 @@ type lockResult struct {
 	paths      int
 	funcs      int
 	callsUnder map[*types.Func][]lockAccess // calls to watched functions with the lockset held
+	watched    []lockAccess                 // events selected by watchEv with the lockset held
 }
 
 // mutexOp classifies a call event as Lock/RLock/Unlock/RUnlock on a mutex field.
@@ -109,6 +110,10 @@ func (c *Ctx) mutexOp(in *Interp, e *Event) (*types.Var, string) {
 // roots: functions whose entry lockset is empty (exported API, goroutine roots); others inherit the
 // intersection of their call sites.
 func (c *Ctx) lockAnalysis(pkg string, guarded map[*types.Var]guardSpec, watch map[*types.Func]bool, inlineDepth int) *lockResult {
+	return c.lockAnalysisEv(pkg, guarded, watch, nil)
+}
+
+func (c *Ctx) lockAnalysisEv(pkg string, guarded map[*types.Var]guardSpec, watch map[*types.Func]bool, watchEv func(fi *FuncInfo, e *Event) bool) *lockResult {
 	res := &lockResult{entry: map[*types.Func]lockset{}, callsUnder: map[*types.Func][]lockAccess{}}
 	fns := c.P.LibFuncs(pkg)
 	acc := map[*types.Var]bool{}
@@ -234,6 +239,9 @@ func (c *Ctx) lockAnalysis(pkg string, guarded map[*types.Var]guardSpec, watch m
 				}
 				if e.Kind == EvAccess {
 					res.accesses = append(res.accesses, lockAccess{d.fi, e, held.clone(), t})
+				}
+				if watchEv != nil && watchEv(d.fi, e) {
+					res.watched = append(res.watched, lockAccess{d.fi, e, held.clone(), t})
 				}
 				if e.Kind == EvCall && watch != nil {
 					if g, ok := e.Callee.(*types.Func); ok {
